@@ -6,9 +6,9 @@
   * every message: an object without duplicate members, `"jsonrpc": "2.0"`.
   * notification: a string `method`, no `id`, no `result`, no `error`.
   * response: members ⊆ {jsonrpc, id, result, error}; an `id` member — the request's id when the request carries exactly
-    one id member and it is a string or an integer, `null` when the request has no id member at all (unparsable input
-    included: JSON-RPC 2.0 §5 "If there was an error in detecting the id in the Request object, it MUST be Null"), anything
-    otherwise; exactly one of `result` / `error`; `error` = {code: integer, message: string, data?}; `result` has the shape
+    one id member and it is a string or an integer within ±2^53, `null` when the request has no id member at all (unparsable
+    input included), anything otherwise; a Parse error (−32700) / Invalid Request (−32600) answer may always carry `null`
+    (JSON-RPC 2.0 §5: "If there was an error in detecting the id in the Request object, it MUST be Null"); exactly one of `result` / `error`; `error` = {code: integer, message: string, data?}; `result` has the shape
     MCP prescribes for the request's method.
 -/
 import Mcp.Model.Json
@@ -132,6 +132,14 @@ def wfError : Json → Bool
   | .obj e => reqIs e t!"code" isInt && reqIs e t!"message" isStr && onlyKeys e [t!"code", t!"message", t!"data"]
   | _ => false
 
+/-- Parse error / Invalid Request: the server could not (or need not) identify the request — JSON-RPC 2.0 §5.1 lets the id
+    be Null then -/
+def isUnidentifiedError : Json → Bool
+  | .obj e => match lookup e t!"code" with
+    | some (.int c) => c == -32700 || c == -32600
+    | _ => false
+  | _ => false
+
 /-- the members of the request whose name is `name` up to ASCII case (what a lenient decoder may bind to it) -/
 def membersLoose (o : Obj) (name : Text) : Obj := o.filter (fun kv => toLower kv.1 == name)
 
@@ -140,9 +148,10 @@ inductive IdDemand
   | null
   | any
 
+/-- a string, or an integer within ±2^53 (the integers every JSON implementation holds exactly) -/
 def wfId : Json → Bool
   | .str _ => true
-  | .int _ => true
+  | .int i => decide (i.natAbs ≤ 9007199254740992)
   | _ => false
 
 /-- which id a response to this input must carry -/
@@ -181,13 +190,10 @@ def wfMsg (req : Option Json) (m : Json) : Bool :=
      | some meth => isStr meth && !hasKey o t!"id" && !hasKey o t!"result" && !hasKey o t!"error"
      | none =>
        onlyKeys o [t!"jsonrpc", t!"id", t!"result", t!"error"] &&
-       (match lookup o t!"id" with
-        | none => false
-        | some id => idOk (idDemand req) id) &&
-       (match lookup o t!"result", lookup o t!"error" with
-        | some r, none => wfResult (requestMethod req) r
-        | none, some e => wfError e
-        | _, _ => false))
+       (match lookup o t!"id", lookup o t!"result", lookup o t!"error" with
+        | some id, some r, none => idOk (idDemand req) id && wfResult (requestMethod req) r
+        | some id, none, some e => wfError e && (idOk (idDemand req) id || (isNull id && isUnidentifiedError e))
+        | _, _, _ => false))
   | _ => false
 
 /-! ## requests -/
